@@ -1,17 +1,19 @@
 # C17 -- $connections equals the number of open sessions on the database
 import itertools, random, re
 from nodegen import *
+import netfam
 
 ID = "C17"
 DRIVER = "node"
-MODEL_FILES = ["Model/Base.v", "Model/Parse.v", "Model/Node.v"]
-THEOREMS = ["C17_conn_init", "C17_conn_step", "C17_conn_run", "C17_conn_never_negative", "C17_conn_back_to_previous", "C17_usedb_wrong_token_noop", "C17_conn_key_run", "C17_conn_key_run_from_init", "C17_conn_watchers_notified", "C17_conn_full_run", "C17_key_stuck_at_saturated_version_refuted", "C17_inv_needs_sel_exists"]
+MODEL_FILES = ["Model/Base.v", "Model/Parse.v", "Model/Node.v", "Model/Net.v"]
+THEOREMS = ["C17_conn_init", "C17_conn_step", "C17_conn_run", "C17_conn_never_negative", "C17_conn_back_to_previous", "C17_usedb_wrong_token_noop", "C17_conn_key_run", "C17_conn_key_run_from_init", "C17_conn_watchers_notified", "C17_conn_full_run", "C17_key_stuck_at_saturated_version_refuted", "C17_inv_needs_sel_exists", "C17_net_conn_step", "C17_net_conn_run", "C17_net_conn_run_from_init"]
 STRENGTH = {t: "proof-unbounded" for t in THEOREMS}
 RULE = ("exhaustive event sequences (length <= 4 quick / 5 thorough) over connect / use-db {d1, d2, wrong token, user token, "
         "unknown db} / disconnect / HTTP bodies with 0-2 use-db on up to 3 sessions and 2 databases, plus seeded random longer "
         "sequences mixed with unrelated commands; an administrator session watches $connections on d1; distinct = distinct "
-        "canonical trace; non-trivial = some database's counter went up and down")
-ASSUMPTIONS = ["disconnects run the shared path process_request('unwatch-all') + Client::left (the three transports call exactly this)",
+        "canonical trace; non-trivial = some database's counter went up and down; transport family t*: random histories of "
+        "connect / use-db / disconnect / HTTP bodies over real TCP and WebSocket connections and the real HTTP listener")
+ASSUMPTIONS = ["node-driver families end a session through the shared path process_request('unwatch-all') + Client::left; the transport family t* ends it by closing a real TCP socket / WebSocket / HTTP request and so runs each transport's own disconnect path",
                "clients do not write the $connections key themselves (it is an ordinary writable key)"]
 TRUSTED = []
 
@@ -35,7 +37,11 @@ HTTPS = ["get a", "use-db d1 t1; get a", "use-db d1 t1; use-db d2 t2; get a", "u
 OTHER = ["get a", "set a 1", "keys", "watch a", "unwatch-all", "increment c", "remove a", "arbiter", "snapshot false"]
 
 
-def build(seq):
+def driver_of(case):
+    return "net" if case[0].startswith("t") else "node"
+
+
+def build(seq, http_takes_sid=True):
     """seq: list of abstract events; sessions are numbered from 1 (0 is the admin)"""
     ops = list(SETUP)
     nopen = []      # open session ids
@@ -52,7 +58,9 @@ def build(seq):
             sid = nopen[e[1] % len(nopen)]
             ops.append(C(sid, e[2]))
         elif e[0] == "http":
-            ops.append(["http", hexs(e[1])]); nxt += 1
+            ops.append(["http", hexs(e[1])])
+            if http_takes_sid:
+                nxt += 1
         elif e[0] == "other":
             if not nopen: continue
             sid = nopen[e[1] % len(nopen)]
@@ -87,13 +95,65 @@ def gen_cases(tier, seed):
             dist["events"][e[0]] = dist["events"].get(e[0], 0) + 1
         cases.append(("r%d" % i, ["P"], build(seq)))
     dist["random"] = nrand
+    # the same histories through the real TCP / WebSocket / HTTP listeners: the three transports' own disconnect paths
+    nt = {"quick": 400, "thorough": 6000, "search": 300}[tier]
+    for i in range(nt):
+        seq = []
+        for _ in range(rng.randint(3, 14)):
+            r = rng.random()
+            if r < 0.25: e = ("conn",)
+            elif r < 0.45: e = ("disc", rng.randint(0, 3))
+            elif r < 0.8: e = ("use", rng.randint(0, 3), rng.choice(USES))
+            elif r < 0.9: e = ("http", rng.choice(HTTPS))
+            else: e = ("other", rng.randint(0, 3), rng.choice(OTHER))
+            seq.append(e)
+        if seq[0][0] != "conn":
+            seq.insert(0, ("conn",))
+        kinds = [rng.choice("tw") for _ in range(8)]
+        cases.append(("t%d" % i, ["P"], netfam.to_net(build(seq, http_takes_sid=False), kinds)))
+    dist["transport"] = nt
     return cases, dist
 
 
 SESS_RE = re.compile(r" s(\d+)=([Aa])/([^/ ]+)/([^/ ]+)/(\S+)")
 
 
+def net_oracle(case, io, mo):
+    obs = split_obs(io)
+    fails = netfam.transport_failures(case, obs)
+    sels = netfam.track_selection(case, obs)
+    prev_conn = {}
+    for i, op in enumerate(case[2]):
+        if i >= len(obs):
+            fails.append(("driver-died", "step %d" % i)); break
+        reply, inb, q, dump = obs[i]
+        if op[0] == "disc" and reply != "Left":
+            fails.append(("disconnect-failed", "step %d: %s" % (i, reply)))
+        sel = {}
+        for sid, db in sels[i].items():
+            sel[db] = sel.get(db, 0) + 1
+        for name in ("d1", "d2"):
+            sec = db_section(dump, name)
+            if not sec:
+                continue
+            conn = int(sec.group(3))
+            want = sel.get(name, 0)
+            if conn != want:
+                fails.append(("counter-mismatch", "step %d: %s counter %d but %d open sessions selected it" % (i, name, conn, want)))
+            keys = db_keys(dump, name)
+            if "$connections" in keys and keys["$connections"][0] != str(conn):
+                fails.append(("key-mismatch", "step %d: %s $connections key %s but counter %d" % (i, name, keys["$connections"][0], conn)))
+            if name == "d1" and i >= len(SETUP) and name in prev_conn and prev_conn[name] != conn:
+                got = [x for x in netfam.items_of(inb, 0) if x.startswith("changed $connections ")]
+                if not got or got[-1] != "changed $connections %d\n" % conn:
+                    fails.append(("watcher-missed-change", "step %d: d1 counter %d -> %d, watcher got %s" % (i, prev_conn[name], conn, got)))
+            prev_conn[name] = conn
+    return fails
+
+
 def oracle(case, io, mo):
+    if case[0].startswith("t"):
+        return net_oracle(case, io, mo)
     fails = []
     obs = split_obs(io)
     open_s = set()
